@@ -78,7 +78,7 @@ class EngineBase:
             return
         if goal is False:
             goal = z3.BoolVal(False)
-        ob = Obligation(self.cur_func, label, kind, st.pc, goal, getattr(node, "lineno", 0),
+        ob = Obligation(self.cur_func, label + getattr(self, "cur_variant", ""), kind, st.pc, goal, getattr(node, "lineno", 0),
                         tuple(serves if serves is not None else self.cur_serves), st.note)
         self.obligations.append(ob)
 
@@ -179,6 +179,10 @@ class EngineBase:
                 if isinstance(cls, ClassInfo):
                     if cls.find_method("__bool__") or cls.find_method("__len__"):
                         raise Unsupported(f"truthiness of {cls.name} with __bool__/__len__", node)
+                    for ext in cls.external_bases():
+                        model = self.reg.models.get("base:" + ext)
+                        if model is not None and hasattr(model, "truth"):
+                            return model.truth(self, st, v)
                 return True
             if o.kind in ("iter", "gen", "thunk", "cell", "opaque", "io"):
                 return True
@@ -355,6 +359,8 @@ class EngineBase:
             seg = Seg(V.fresh_of_sort(name, V.SegSort), name)
             st, r = self.alloc(st, "list", None, items=(seg,))
             return st, r, [V.seg_len(seg.const) >= 0]
+        if k == "anyobj":
+            raise Unsupported("a result of sort `anyobj` can only be checked, not assumed (inline_at_calls contracts)")
         if k == "any":
             st, r = self.alloc(st, "opaque", None, id=V.fresh_int(name))
             return st, r, []
@@ -389,7 +395,8 @@ class EngineBase:
         shape = self.reg.shapes.get(key)
         if shape is None:
             raise Unsupported(f"no shape declared for class {key}")
-        cls = self.tree.get_class(key) if ":" in key and key.split(":")[0] in self.tree.modules else key
+        ckey = key.split("@")[0]      # "<module>:<Class>@<variant>": a second shape for the same class
+        cls = self.tree.get_class(ckey) if ":" in ckey and ckey.split(":")[0] in self.tree.modules else ckey
         fields: dict[str, Any] = {}
         invs: list = []
         for fn, fs in list(shape.fields.items()) + list(shape.ghost.items()):
